@@ -143,3 +143,49 @@ Example wf_indexed_example : wf_indexed one_layer one_layer_VV.
 Proof. exact one_layer_wf. Qed.
 Example mesh_wf_example : mesh_wf tetra_mesh.
 Proof. destruct (wf_mesh _ _ one_layer_wf (mkPair 0 0 1%Z 1 1 1) (or_introl eq_refl)) as [W _]. exact W. Qed.
+
+(* ------------------------------------------------------------------------------------------------------------
+   The well-formedness premise discharged (C11's bridge coq/Geom/IndexBridgeC10.v): for EVERY geometry that
+   Geometry::finalize accepts (default ordering) whose mesh files are well formed (distinct vertex references,
+   non-degenerate triangles over them), the indexed geometry read off the finalized model satisfies wf_indexed.
+   The headline theorems therefore hold for every loaded geometry, with no premise on the bookkeeping. *)
+From OM Require Geom.GeomModel Geom.IndexBridgeC10.
+
+Theorem potential_rows_sum_zero_for_every_loaded_geometry :
+  forall g hasc zero snz fi sig sinv ind K pos area Sk Dk,
+  GeomModel.finalize g hasc zero snz false = (GeomModel.StOk, Some fi) -> IndexBridgeC10.meshes_well_formed g ->
+  let G := IndexBridgeC10.to_igeom g fi sig sinv ind in
+  forall rho, In rho (IndexBridgeC10.VV g fi) -> ~ In (vix G rho) (outer_idx G) ->
+  Rsum (fun u => mget RO (headmat RO K pos area Sk Dk G) (vix G rho) (vix G u)) (IndexBridgeC10.VV g fi) = 0.
+Proof.
+  intros g hasc zero snz fi sig sinv ind K pos area Sk Dk Hf Hw G rho Hr Ho.
+  apply headmat_rowsum_zero; auto. unfold G. eapply IndexBridgeC10.finalize_wf_indexed; eauto.
+Qed.
+Print Assumptions potential_rows_sum_zero_for_every_loaded_geometry.
+
+Theorem N_blocks_keep_potential_row_sums_for_every_loaded_geometry :
+  forall g hasc zero snz fi sig sinv ind K pos area Sk Dk,
+  GeomModel.finalize g hasc zero snz false = (GeomModel.StOk, Some fi) -> IndexBridgeC10.meshes_well_formed g ->
+  let G := IndexBridgeC10.to_igeom g fi sig sinv ind in
+  forall rho p M, In rho (IndexBridgeC10.VV g fi) -> In p (gpairs G) ->
+  rowsum (pair_step RO K pos area Sk Dk G M p) (vix G rho) (Cidx G (IndexBridgeC10.VV g fi))
+  = rowsum M (vix G rho) (Cidx G (IndexBridgeC10.VV g fi)).
+Proof.
+  intros g hasc zero snz fi sig sinv ind K pos area Sk Dk Hf Hw G rho p M Hr Hp.
+  apply (pair_step_keeps K pos area Sk Dk G (IndexBridgeC10.VV g fi)); auto.
+  unfold G. eapply IndexBridgeC10.finalize_wf_indexed; eauto.
+Qed.
+Print Assumptions N_blocks_keep_potential_row_sums_for_every_loaded_geometry.
+
+Theorem no_parts_all_rows_sum_zero_for_every_loaded_geometry :
+  forall g hasc zero snz fi sig sinv ind K pos area Sk Dk,
+  GeomModel.finalize g hasc zero snz false = (GeomModel.StOk, Some fi) -> IndexBridgeC10.meshes_well_formed g ->
+  let G := IndexBridgeC10.to_igeom g fi sig sinv ind in
+  gparts G = [] ->
+  forall rho, In rho (IndexBridgeC10.VV g fi) ->
+  Rsum (fun u => mget RO (headmat RO K pos area Sk Dk G) (vix G rho) (vix G u)) (IndexBridgeC10.VV g fi) = 0.
+Proof.
+  intros g hasc zero snz fi sig sinv ind K pos area Sk Dk Hf Hw G Hp rho Hr.
+  apply AssemblyProofs.no_parts_all_rows_sum_zero; auto. unfold G. eapply IndexBridgeC10.finalize_wf_indexed; eauto.
+Qed.
+Print Assumptions no_parts_all_rows_sum_zero_for_every_loaded_geometry.
